@@ -8,6 +8,8 @@ import (
 	"os"
 	"sort"
 	"strings"
+	"testing"
+	"testing/cryptotest"
 
 	"github.com/bronlabs/bron-crypto/pkg/base/datastructures/hashset"
 	"github.com/bronlabs/bron-crypto/pkg/network"
@@ -232,4 +234,34 @@ func (pr *protoRun) nontrivial() bool {
 
 func (pr *protoRun) netClass() string {
 	return fmt.Sprintf("pol=%s faults=%s", pr.cl.Policy, strings.Join(pr.faultKinds, ","))
+}
+
+// partyRand returns the random stream of one party for one purpose
+// ("<session>/sess", "<session>/proto", ...). C07 varies single streams through
+// rc.Params: alt="<id>|<purpose>|<tag>" replaces exactly that stream by an
+// independent one; short="<id>|<purpose>" hands the same bytes out in short
+// reads; failat="<id>|<purpose>|<k>" makes the k-th Read call fail.
+func partyRand(rc *harness.RunCtx, id sim.ID, purpose string) *sim.Rand {
+	seed := rc.Seed.Sub(fmt.Sprintf("rand/%d/%s", id, purpose))
+	me := fmt.Sprintf("%d|%s", id, purpose)
+	if alt := rc.Params["alt"]; strings.HasPrefix(alt, me+"|") {
+		seed = seed.Sub("alt:" + alt[len(me)+1:])
+	}
+	r := sim.NewRand(seed)
+	if rc.Params["short"] == me {
+		r.ShortMax = 5
+	}
+	if fa := rc.Params["failat"]; strings.HasPrefix(fa, me+"|") {
+		fmt.Sscan(fa[len(me)+1:], &r.FailAt)
+	}
+	if rc.Aux != nil {
+		rc.AuxMu.Lock()
+		rc.Aux["rand:"+me] = r
+		rc.AuxMu.Unlock()
+	}
+	return r
+}
+
+func setGlobalRand(t *testing.T, tag string) {
+	cryptotest.SetGlobalRandom(t, harness.HashU64("global", tag))
 }
